@@ -267,6 +267,8 @@ class Fn:
         self.nloops = 0
         self.recursive_loops = False
         self.uses_fuel = False
+        self.pure_calls = set()    # function-pointer parameters / external functions assumed pure: a call is an application of a function-valued parameter
+        self.pure_params = {}      # name -> Lean type text of that parameter
         self.trace = []
         self.lets, self.n = [], 0
         self.uses_mem = False
@@ -750,6 +752,8 @@ class Fn:
         args = n['inner'][1:]
         if callee['referencedDecl'].get('kind') == 'ParmVarDecl':
             real = self.fnalias_map.get(fname, fname)
+            if real in self.fnptrs and real in self.pure_calls:
+                return self.pure_call(real, n, args, env)
             if real in self.fnptrs:
                 return self.extern_call(real, n, args, env)
             raise Unsupported('indirect call')
@@ -798,6 +802,25 @@ class Fn:
         self.flag(env, '$ub', f'{r}.ub')
         self.flag(env, '$exh', f'{r}.exh')
         return f'{r}.ret' if sig['ret'] else '()'
+
+    def pure_call(self, fname, n, args, env):
+        """a call of a function assumed pure (the comparator of list_insert_sorted): the function itself is a parameter
+        `<name>_fn : BitVec .. → .. → BitVec ..` of the generated definition and the call is its application"""
+        ats = [self.tu.vtype(a) for a in args]
+        if n.get('type', {}).get('qualType') == 'void':
+            raise Unsupported('pure call of a void function')
+        rt = self.tu.vtype(n)
+        ty = ' → '.join([f'BitVec {t.w}' for t in ats] + [f'BitVec {rt.w}'])
+        pn = f'{fname}_fn'
+        if self.pure_params.get(pn, ty) != ty:
+            raise Unsupported('pure function called at two different types')
+        self.pure_params[pn] = ty
+        self.kt('%' + pn, ty)
+        if '%' + pn not in env:
+            if self.in_loop and self.recursive_loops:
+                raise Unsupported('first call of a pure function inside a loop')     # (the loop definition would miss the parameter)
+            env['%' + pn] = pn
+        return self.bind(fname + '_val', f'({env["%" + pn]} ' + ' '.join(self.ev(a, env) for a in args) + ')')
 
     def extern_call(self, fname, n, args, env):
         """a call of a function outside the unit that the tie treats as the environment (clock, scheduler pass, sleep):
@@ -866,7 +889,7 @@ class Fn:
         dd = self.dead(env)
         cenv = {'$done': dd if dd in ('false', 'true') else self.bind('skip', dd), '$ret': None, '$exit': 'false',
                 '$ub': env['$ub'], '$exh': env['$exh'], '$mem': env['$mem'], '$path': env.get('$path', 'true')}
-        for gk in [k_ for k_ in env if k_.startswith('@')]:
+        for gk in [k_ for k_ in env if k_.startswith('@') or k_.startswith('%')]:
             cenv[gk] = env[gk]
         saved = (self.ftype, self.ptype, self.partial, self.in_loop, getattr(self, 'stack', ()))
         saved_ktype = self.ktype
@@ -906,7 +929,7 @@ class Fn:
         self.depth -= 1
         for ck, pk in back:
             env[ck] = cenv[pk]
-        for gk in [k_ for k_ in env if k_.startswith('@')]:
+        for gk in [k_ for k_ in cenv if k_.startswith('@') or k_.startswith('%')]:
             env[gk] = cenv[gk]
         env['$mem'], env['$ub'], env['$exh'] = cenv['$mem'], cenv['$ub'], cenv['$exh']
         return cenv['$ret'] if cenv['$ret'] is not None else '()'
@@ -986,7 +1009,7 @@ class Fn:
 
     @staticmethod
     def san(key):
-        return re.sub(r'[^A-Za-z0-9_]', '_', key.replace('->', '_').replace('@&', 'addr_').replace('@', 'g_').replace('*', 'deref_').replace('$', ''))
+        return re.sub(r'[^A-Za-z0-9_]', '_', key.replace('->', '_').replace('@&', 'addr_').replace('@', 'g_').replace('*', 'deref_').replace('$', '').replace('%', 'fn_'))
 
     def loop_rec(self, n, env):
         """a loop as a recursive definition `<fn>.loop<k>` with a fuel argument: its parameters are the values of the variables the loop
@@ -1023,8 +1046,6 @@ class Fn:
             raise Unsupported('call of the environment or va_arg inside a loop')
         state = [k_ for k_ in keys if k_ not in ('$exit', '$path') and e1.get(k_) != env.get(k_)]
         self.lets, self.n, self.ktype, self.aux_defs, self.nloops = snap
-        if env['$done'] != 'false':
-            raise Unsupported('loop after a conditional return')
         # pass 2: the iteration over parameter names
         self.nloops += 1
         lname = f'{fname}.loop{self.nloops}'
@@ -1401,7 +1422,8 @@ class Fn:
         out += [f'/-- result of the generated `{name}` -/', f'structure {name}.Out where']
         out += [f'  {f} : {t}' for f, t, _ in fields]
         out.append('')
-        sigtxt = ('(fuel : Nat) ' if self.uses_fuel else '') + ' '.join(f'({n_} : BitVec {w})' for n_, w in params) + (' (mem : Mem)' if self.uses_mem else '')
+        sigtxt = ('(fuel : Nat) ' if self.uses_fuel else '') + ''.join(f'({n_} : {t_}) ' for n_, t_ in sorted(self.pure_params.items())) \
+            + ' '.join(f'({n_} : BitVec {w})' for n_, w in params) + (' (mem : Mem)' if self.uses_mem else '')
         out = self.aux_defs + out
         out += [f'/-- generated from `{name}` (sequential meaning; loops ' + ('are recursive definitions with a fuel argument' if self.uses_fuel else f'unrolled {self.fuel}×') + ') -/', f'def {name} {sigtxt} : {name}.Out :=']
         for n_, e in self.lets:
@@ -1512,7 +1534,7 @@ def load(path, extra):
     return tu
 
 
-def generate(path, fns, namespace, extra=(), fuel=2, fuels=None, externs=(), inmem=(), recursive_loops=False, optional=()):
+def generate(path, fns, namespace, extra=(), fuel=2, fuels=None, externs=(), inmem=(), recursive_loops=False, optional=(), pure_calls=()):
     """Lean source text for the listed functions of one C file, in the order given (callees first)."""
     tu = load(path, list(extra))
     tu.inmem = set(inmem)
@@ -1524,6 +1546,7 @@ def generate(path, fns, namespace, extra=(), fuel=2, fuels=None, externs=(), inm
             raise Unsupported(f'function {fn} not found in {path}')
         f_ = Fn(tu, tu.fns[fn], (fuels or {}).get(fn, fuel), done, externs)
         f_.recursive_loops = recursive_loops
+        f_.pure_calls = set(pure_calls)
         try:
             text, sig = f_.translate()
         except Unsupported as e:
